@@ -139,6 +139,13 @@ Del == IsEv("del") /\ Step(ob, ed, [k \in DOMAIN stk |-> IF stk[k] = E.a THEN 0 
 Collect == IsEv("collect") /\ Same({})
 StopStart == (IsEv("stop") \/ IsEv("start")) /\ Same({})
 
+(* a long chain hanging from one stack slot: while it is rooted a collection returns and keeps every link; *)
+(* afterwards the collector may reclaim it (or not)                                                        *)
+Chain == /\ IsEv("chain") /\ E.exc = ""
+         /\ (E.rooted = 1 => E.kept = E.n)
+         /\ E.kept <= E.n
+         /\ UNCHANGED <<ob, ed, stk, tls, boxof, fins>>
+
 (* after Cello_Exit: teardown finalised every managed Node that was still there; nothing twice *)
 Exit == /\ IsEv("exit")
         /\ (Mode = "final" =>
@@ -149,7 +156,7 @@ Exit == /\ IsEv("exit")
         /\ UNCHANGED <<ob, ed, stk, tls, boxof, fins>>
 
 Next == \/ Reset \/ End \/ New \/ Link \/ CPush \/ CPop \/ CSet \/ CRem \/ KSet \/ KRem \/ Root \/ Tls \/ UnTls
-        \/ Del \/ Collect \/ StopStart \/ Exit
+        \/ Del \/ Collect \/ StopStart \/ Chain \/ Exit
 Spec == Init /\ [][Next]_vars
 
 Accepted == LET d == TLCGet("stats").diameter IN
